@@ -102,7 +102,7 @@ func runC05(j *C05Job) error {
 	for bi := range j.LazyBeh {
 		var rec TraceRec
 		for attempt := 0; attempt < 3; attempt++ {
-			rec, err = lazyBurst(bi, &j.LazyBeh[bi], &j.Map, hv, j.Burst)
+			rec, err = runLazy(bi, &j.LazyBeh[bi], &j.Map, hv, lazyOpts{Mult: j.Burst})
 			if err != nil {
 				return fmt.Errorf("lazy behaviour %d: %w", bi, err)
 			}
@@ -122,224 +122,6 @@ func (n *fakeNext) setBG(f func(*query_context.Context) *dns.Msg) {
 	n.mu.Lock()
 	n.bgHook = f
 	n.mu.Unlock()
-}
-
-// lazyBurst realises a behaviour of the form  <virtual prefix> Exec(stale)+ RefreshEnd Exec* ... :
-// the state at the first stale hit is injected; every maximal run of Exec steps is executed as a
-// burst of concurrent calls while the background `next` is held at a gate; RefreshEnd opens it.
-func lazyBurst(bi int, b *Behaviour, m *Map, hv *keyHarvester, mult int) (TraceRec, error) {
-	first := -1
-	for si, st := range b.Steps {
-		if st.A == "Exec" && st.O.Res == "stale" {
-			first = si
-			break
-		}
-	}
-	if first < 0 {
-		return TraceRec{}, fmt.Errorf("no stale hit")
-	}
-	w := newWorld(m, b.Lazy, hv, []int{1})
-	defer w.close()
-	var mu sync.Mutex // orders all events of this world
-	kn := map[int]known{}
-	st0 := b.Steps[first]
-	w.setNow(st0.Now)
-	if err := w.inject(1, st0.E); err != nil {
-		return TraceRec{}, err
-	}
-	for _, e := range st0.E {
-		q := e.Owner
-		q.K = "std"
-		cq, _ := m.conc(q)
-		kn[e.Id] = known{cq, e.R}
-	}
-	w.serial = 100
-	type bgCall struct {
-		q       AQ
-		sid     int
-		release chan *dns.Msg
-	}
-	var bgs []*bgCall
-	in := w.inst(1)
-	in.nx.setBG(func(qCtx *query_context.Context) *dns.Msg {
-		qq := qCtx.Q().Question[0]
-		cq := CQ{Name: qq.Name, Type: qq.Qtype, Class: qq.Qclass, Flags: 0}
-		if qCtx.Q().AuthenticatedData {
-			cq.Flags |= 1
-		}
-		if qCtx.Q().CheckingDisabled {
-			cq.Flags |= 2
-		}
-		if o := qCtx.Q().IsEdns0(); o != nil && o.Do() {
-			cq.Flags |= 4
-		}
-		aq, _ := m.abs(cq)
-		aq.K = "std"
-		mu.Lock()
-		c := &bgCall{q: aq, sid: 10000 + len(bgs), release: make(chan *dns.Msg, 1)}
-		bgs = append(bgs, c)
-		w.events = append(w.events, ev{"ev": "RefreshStart", "i": 1, "q": absQ(aq), "sid": c.sid})
-		mu.Unlock()
-		select {
-		case r := <-c.release:
-			return r
-		case <-time.After(4 * time.Second):
-			return nil
-		}
-	})
-	released := map[*bgCall]bool{}
-	si := first
-	for si < len(b.Steps) {
-		st := b.Steps[si]
-		switch st.A {
-		case "Exec":
-			// Only calls that are served from cache without changing it commute. A maximal run of Exec
-			// steps on which the model serves a STALE answer becomes one concurrent burst (each step mult
-			// times) — but only after a first, sequential call has really been served from cache; every
-			// other Exec step (miss / fresh hit) runs alone.
-			var run []Step
-			if st.O.Res == "stale" {
-				for si < len(b.Steps) && b.Steps[si].A == "Exec" && b.Steps[si].O.Res == "stale" {
-					run = append(run, b.Steps[si])
-					si++
-				}
-			} else {
-				run = []Step{st}
-				si++
-			}
-			var wg sync.WaitGroup
-			one := func(s Step) string {
-				cq, err := m.conc(s.Q)
-				if err != nil {
-					return "error"
-				}
-				mu.Lock()
-				sid := w.serial
-				w.serial++
-				mu.Unlock()
-				er := in.exec(cq, s.R, sid)
-				o := observe(er, 5)
-				ao := toAbs(m, o)
-				mu.Lock()
-				if o.Res == "miss" {
-					kn[sid] = known{cq, s.R}
-				}
-				if o.Res == "hit" {
-					if k0, ok := kn[o.Sid]; ok {
-						ao.Cont = contOf(er.resp, k0.cq, k0.ar, o.Sid)
-					}
-				}
-				w.events = append(w.events, ev{"ev": "Exec", "i": 1, "q": absQ(s.Q), "r": absR(s.R), "sid": sid,
-					"o": ev{"res": ao.Res, "owner": absOwner(ao.Owner), "id": ao.Id, "ttls": ao.Ttls, "cont": ao.Cont, "idok": ao.Idok}})
-				mu.Unlock()
-				return o.Res
-			}
-			concurrent := st.O.Res == "stale"
-			for ri, s := range run {
-				k0 := 0
-				if concurrent {
-					// probe sequentially; if the real plugin does not serve this key from cache, stay sequential
-					if one(s) != "hit" {
-						concurrent = false
-					}
-					k0 = 1
-				}
-				_ = ri
-				for k := k0; k < mult; k++ {
-					if !concurrent {
-						if k0 == 0 && k > 0 {
-							break // a non-stale step runs exactly once
-						}
-						if k0 == 0 {
-							one(s)
-							break
-						}
-						one(s)
-						continue
-					}
-					s := s
-					wg.Add(1)
-					go func() {
-						defer wg.Done()
-						one(s)
-					}()
-				}
-			}
-			wg.Wait()
-			// give a background goroutine started by the last call time to reach the gate
-			time.Sleep(30 * time.Millisecond)
-			w.checkClock()
-		case "RefreshEnd":
-			si++
-			var c *bgCall
-			deadline := time.Now().Add(500 * time.Millisecond)
-			for c == nil && time.Now().Before(deadline) {
-				mu.Lock()
-				for _, x := range bgs {
-					if !released[x] && x.q.N == st.Q.N && x.q.T == st.Q.T && x.q.C == st.Q.C && x.q.F == st.Q.F {
-						c = x
-						break
-					}
-				}
-				mu.Unlock()
-				if c == nil {
-					time.Sleep(5 * time.Millisecond)
-				}
-			}
-			if c == nil {
-				w.notes = append(w.notes, "no background refresh reached next for RefreshEnd")
-				return TraceRec{Kind: "trace", Beh: bi, Tag: "lazy", Events: w.events, Slow: w.slow, Notes: w.notes}, nil
-			}
-			released[c] = true
-			cq, _ := m.conc(st.Q)
-			q := buildQuery(cq, 1)
-			r := buildAnswer(q, cq, st.R, c.sid, 0)
-			kn[c.sid] = known{cq, st.R}
-			c.release <- r
-			// wait until the refresh has been stored (or cannot be): poll the dump, unlogged
-			want := MsgStorable(st.R)
-			t0 := time.Now()
-			for time.Since(t0) < time.Second {
-				if !want {
-					time.Sleep(20 * time.Millisecond)
-					break
-				}
-				_, body := in.api("GET", "/dump", nil)
-				ents, _ := decodeDump(body)
-				found := false
-				for _, e := range ents {
-					mm := new(dns.Msg)
-					if mm.Unpack(e.GetMsg()) == nil {
-						if id, _, _ := parseID(mm); id == c.sid {
-							found = true
-						}
-					}
-				}
-				if found {
-					break
-				}
-				time.Sleep(2 * time.Millisecond)
-			}
-			time.Sleep(10 * time.Millisecond)
-			mu.Lock()
-			w.events = append(w.events, ev{"ev": "RefreshEnd", "i": 1, "q": absQ(st.Q), "r": absR(st.R), "sid": c.sid})
-			mu.Unlock()
-			w.checkClock()
-		default:
-			// Tick etc. after the first stale hit cannot be realised; stop here
-			si = len(b.Steps)
-		}
-	}
-	// open all gates
-	mu.Lock()
-	for _, c := range bgs {
-		if !released[c] {
-			c.release <- nil
-		}
-	}
-	nbg := len(bgs)
-	mu.Unlock()
-	return TraceRec{Kind: "trace", Beh: bi, Tag: "lazy", Events: w.events, Slow: w.slow, Notes: w.notes, Extra: ev{"background": nbg}}, nil
 }
 
 // MsgStorable: used only to decide how long to WAIT for the background store (never for a verdict):
